@@ -189,3 +189,110 @@ func engName(enc uint16) string {
 }
 
 var _ = Depth(0)
+
+// deepSweep: very deep searches of trivially searchable endings - variations of 45 to 63 moves, iteration depths up to
+// the engine's maximum (the variation buffers and the text of a reported line at their geometric limits).
+func deepSweep(r *ev.Run, prop string) int64 {
+	type job struct {
+		fen   string
+		depth int
+	}
+	jobs := []job{
+		{"8/8/8/4k3/8/8/4P3/4K3 w - - 0 1", 63}, {"8/8/8/4k3/8/8/4P3/4K3 b - - 0 1", ev.Pick(r, 54, 63)}, {"8/8/8/8/4k3/8/4P3/4K3 b - - 0 1", ev.Pick(r, 50, 63)},
+		{"k7/8/8/8/8/8/8/K6N w - - 0 1", 63}, {"7k/8/8/8/8/8/8/KR6 w - - 0 1", ev.Pick(r, 40, 63)}, {"8/8/8/4k3/8/8/4P3/4K3 w - - 0 1", 40}, {"4k3/4p3/8/8/4K3/8/8/8 b - - 0 1", ev.Pick(r, 48, 63)},
+	}
+	var n atomic.Int64
+	ev.Parallel(len(jobs), func(worker, item int) {
+		j := jobs[item]
+		h, err := newHistory(j.fen, nil)
+		if err != nil {
+			return
+		}
+		req := searchReq{FEN: j.fen, Depth: j.depth, Nodes: -1, SoftNodes: -1, TT: 8 << 20}
+		res := runSearch(search.New(req.TT), h.B, req)
+		n.Add(1)
+		longest := 0
+		for _, il := range res.Infos {
+			longest = max(longest, len(il.PV))
+		}
+		r.Sample(map[string]any{"deep_search": j.fen, "depth": j.depth, "longest_reported_variation": longest, "nodes": res.Nodes})
+		if prop == "C06" {
+			if cls, msg := judgeMove(h, req, &res); cls != "" {
+				r.Fail("deep/"+cls, c06Case{Req: req}, "%s depth %d: %s", j.fen, j.depth, msg)
+			}
+			return
+		}
+		if cls, msg := judgePV(h, &res); cls != "" {
+			r.Fail("deep/"+cls, c07Case{Req: req}, "%s depth %d: %s", j.fen, j.depth, msg)
+		}
+	})
+	return n.Load()
+}
+
+// saturatedSweep — the "state accumulated over many searches" axis made explicit: the move ordering stores of the
+// instance are driven by real FailHigh calls (as C16 does) until the entries of the root's moves are saturated upwards,
+// downwards or alternately, with an empty and a two-move history stack; the search must still find its way.
+type saturatedCase struct {
+	Req   searchReq `json:"request"`
+	Kind  string    `json:"histories"` // "up", "down", "alt"
+	Stack int       `json:"stack_moves"`
+}
+
+func saturatedOne(c saturatedCase) (cls, msg string, res searchRes, h *history) {
+	h, err := newHistory(c.Req.FEN, c.Req.Moves)
+	if err != nil {
+		return
+	}
+	s := search.New(c.Req.TT)
+	ms := move.NewStore()
+	c16FillRanker(s.VerifRanker(), c.Kind, h.B, ms, c16Stack(c.Stack))
+	var before, after board.VerifSnap
+	h.B.VerifSnapshotInto(&before)
+	res = runSearch(s, h.B, c.Req)
+	h.B.VerifSnapshotInto(&after)
+	if d := snapEqual(&before, &after); d != "" {
+		return "board-changed", "the board differs after the search: " + d, res, h
+	}
+	cls, msg = judgeMove(h, c.Req, &res)
+	return
+}
+
+func saturatedSweep(r *ev.Run, prop string, roots []searchReq) int64 {
+	var n atomic.Int64
+	ev.Parallel(len(roots), func(worker, item int) {
+		for _, kind := range []string{"up", "down", "alt"} {
+			for _, stk := range []int{0, 2} {
+				if r.Expired() {
+					return
+				}
+				q := roots[item]
+				q.Depth, q.TT, q.Nodes, q.SoftNodes = 3, 32000, -1, -1
+				c := saturatedCase{q, kind, stk}
+				cls, msg, res, h := saturatedOne(c)
+				if h == nil {
+					continue
+				}
+				n.Add(1)
+				if prop == "C07" {
+					cls, msg = judgePV(h, &res)
+				}
+				if cls != "" {
+					r.Fail("saturated-histories/"+cls, c, "%+v with the history tables saturated (%s, %d stack moves): %s", q, kind, stk, msg)
+				}
+			}
+		}
+	})
+	return n.Load()
+}
+
+func saturatedReplay(prop string, raw json.RawMessage) (bool, string) {
+	var c saturatedCase
+	if err := json.Unmarshal(raw, &c); err != nil {
+		return false, err.Error()
+	}
+	cls, msg, res, h := saturatedOne(c)
+	if h != nil && prop == "C07" {
+		cls, msg = judgePV(h, &res)
+	}
+	return cls != "", msg
+}
